@@ -113,7 +113,8 @@ def gen_spec(rng: random.Random, big: bool) -> dict:
         for (pc, pn) in pubs:
             if pn != "tsk" and [pc, pn] != late["remove"]:
                 late["burst"][f"{pc}.{pn}"] = [rng.choice(SIGS) for _ in range(rng.randint(2, 6))]
-    return {"ctxs": ctxs, "pubs": pubs, "rcvs": rcvs, "links": links, "threads": threads, "presub": presub, "bursts": bursts,
+    kinds = {f"{pc}.{pn}": "inst" for (pc, pn) in pubs if pn != "tsk" and rng.random() < 0.3}   # QMI_Instrument publishers
+    return {"ctxs": ctxs, "pubs": pubs, "kinds": kinds, "rcvs": rcvs, "links": links, "threads": threads, "presub": presub, "bursts": bursts,
             "second": second, "late": late, "policy": rng.choice(["weighted", "weighted", "pct"])}
 
 
@@ -139,6 +140,17 @@ def _classes():
         def direct(self):
             return None
 
+    from qmi.core.instrument import QMI_Instrument
+
+    class PubInstr(QMI_Instrument):
+        sa = QMI_Signal([int])
+        sa2 = QMI_Signal([int])
+
+        @rpc_method
+        def burst(self, items):
+            for (sg, uid) in items:
+                getattr(self, sg).publish(uid)
+
     class PubTask(QMI_Task):
         sa = QMI_Signal([int])
 
@@ -150,7 +162,7 @@ def _classes():
             for (sg, uid) in self._items:
                 self.sa.publish(uid)
 
-    return Pub, PubTask
+    return Pub, PubTask, PubInstr
 
 
 def run_c07(seed, spec: dict, change_points=None, trace_funcs=()):
@@ -163,7 +175,7 @@ def run_c07(seed, spec: dict, change_points=None, trace_funcs=()):
         from qmi.core.pubsub import QMI_SignalReceiver
         from harness import detsched as D
         random.seed(f"c07:{seed}")
-        Pub, PubTask = _classes()
+        Pub, PubTask, PubInstr = _classes()
         tr = PC.Tracer(w)
         box["tr"] = tr
         with tr.installed():
@@ -190,6 +202,8 @@ def run_c07(seed, spec: dict, change_points=None, trace_funcs=()):
             for (pc, pn) in spec["pubs"]:
                 if pn == "tsk":
                     tasks[(pc, pn)] = ctxs[pc].make_task(pn, PubTask, items(spec["bursts"][f"{pc}.{pn}"]))
+                elif (spec.get("kinds") or {}).get(f"{pc}.{pn}") == "inst":
+                    proxies[(pc, pn)] = ctxs[pc].make_instrument(pn, PubInstr)
                 else:
                     proxies[(pc, pn)] = ctxs[pc].make_rpc_object(pn, Pub)
             rcvs = []
@@ -474,7 +488,8 @@ class C07(Prop):
     modelled_not_verified = [
         "pickling of signal arguments and message framing (C06); the model carries whole messages",
         "connect_to_peer (handshake + both registrations) is one atomic model action; QMI_Context.stop is two instants "
-        "(router marked inactive: sends raise at once; then `close_all` runs)",
+        "(router marked inactive: sends raise at once; then `close_all` runs); the FIFO theorem (network_fifo) relies on both: a socket "
+        "thread finishes tearing a connection down before it reads from a newer connection to the same server",
         "set iteration order is a choice parameter of the model (any order allowed); request ids are fresh counters; a KeyError of "
         "_handle_subscription_reply (unknown request id) is a contained no-op",
         "receiver queues: capacity never reached in the model (the queue itself is property C09)",
